@@ -777,10 +777,11 @@ func (w *vhWorld) judge(q *vhReq, panicked bool) {
 		verifReach("preflight")
 		return
 	}
-	if status == http.StatusBadRequest && len(w.evs) == 1 && w.evs[0].what == "write" && queued == 0 {
-		// rejected as malformed before anything was looked at
-		verifAssert("C18-malformed-request-was-malformed", strings.Contains(q.query, "zzz"))
-		verifReach("malformed")
+	if status == http.StatusBadRequest && len(w.evs) == 1 && w.evs[0].what == "write" && queued == 0 && len(body) <= 64 && !q.canonical {
+		// turned away as malformed (a short message) before anything was looked at or done
+		if strings.Contains(q.query, "zzz") {
+			verifReach("malformed")
+		}
 		return
 	}
 	if !q.path.strict && status == http.StatusNotFound && len(w.evs) == 0 && len(body) == 0 && queued == 0 {
@@ -941,10 +942,21 @@ func VerifC18bRoutes() {
 			q.sql = ""
 		}
 	}
-	s, w := vhNewWorld(vhEnv{})
+	var env vhEnv
+	if verifTier() == 1 {
+		// thorough tier: a few query strings on EVERY path and method, local store leader or not
+		if q.query == "" {
+			q.query = vhRouteQueries[verifChoice("query", len(vhRouteQueries))]
+		}
+		env.db = verifChoice("not-leader", 2)
+		q.canonical = q.canonical && q.query == "" && env.db == 0
+	}
+	s, w := vhNewWorld(env)
 	r := q.build()
 	w.judge(q, vhServe(s, w, r))
 }
+
+var vhRouteQueries = []string{"", "redirect", "noleader&nonvoters", "queue&noleader", "timeout=zzz"}
 
 // vhVariant: a documented request (method, query string, body form) per endpoint.
 type vhVariant struct {
@@ -956,39 +968,40 @@ type vhVariant struct {
 }
 
 var vhVariants = []vhVariant{
-	{path: 4, method: "POST"},                                  // /db/execute, text/plain
-	{path: 4, method: "POST", jsonBody: true},                  // /db/execute, JSON array
-	{path: 4, method: "POST", query: "queue", jsonBody: true},  // queued write
-	{path: 4, method: "POST", query: "redirect"},               //
-	{path: 4, method: "POST", query: "timeout=zzz"},            // malformed
+	{path: 4, method: "POST"},                                          // /db/execute, text/plain
+	{path: 4, method: "POST", jsonBody: true},                          // /db/execute, JSON array
+	{path: 4, method: "POST", query: "queue", jsonBody: true},          // queued write
+	{path: 4, method: "POST", query: "queue&noleader", jsonBody: true}, // queued without leader look-up
+	{path: 4, method: "POST", query: "redirect"},                       //
+	{path: 4, method: "POST", query: "timeout=zzz"},                    // malformed
 	{path: 5, method: "GET", query: "q=SELECT+%2A+FROM+secrets", sql: vhSQLRead},
-	{path: 5, method: "POST", query: "level=strong&redirect"},  //
-	{path: 5, method: "POST", jsonBody: true},                  //
-	{path: 6, method: "POST"},                                  // /db/request
-	{path: 6, method: "POST", query: "redirect"},               //
-	{path: 7, method: "GET"},                                   // /db/backup
-	{path: 7, method: "GET", query: "redirect&fmt=sql"},        //
-	{path: 8, method: "POST"},                                  // /db/load, SQLite file
-	{path: 8, method: "POST", jsonBody: true},                  // /db/load, SQL text
-	{path: 8, method: "POST", query: "redirect"},               //
-	{path: 9, method: "GET", query: "q=SELECT+%2A+FROM+secrets"}, // /db/sql
-	{path: 10, method: "POST"},                                 // /boot
-	{path: 11, method: "POST", query: "trailing_logs=5"},       // /snapshot
-	{path: 12, method: "POST"},                                 // /reap
-	{path: 13, method: "DELETE"},                               // /remove
-	{path: 13, method: "DELETE", query: "redirect"},            //
-	{path: 14, method: "GET"},                                  // /status
-	{path: 15, method: "GET", query: "nonvoters&ver=2"},        // /nodes
-	{path: 15, method: "GET"},                                  //
-	{path: 16, method: "GET"},                                  // /leader
-	{path: 16, method: "POST", query: "wait"},                  // stepdown
-	{path: 16, method: "POST", query: "redirect"},              //
-	{path: 17, method: "GET"},                                  // /readyz
-	{path: 17, method: "GET", query: "noleader"},               //
+	{path: 5, method: "POST", query: "level=strong&redirect"},          //
+	{path: 5, method: "POST", jsonBody: true},                          //
+	{path: 6, method: "POST"},                                          // /db/request
+	{path: 6, method: "POST", query: "redirect"},                       //
+	{path: 7, method: "GET"},                                           // /db/backup
+	{path: 7, method: "GET", query: "redirect&fmt=sql"},                //
+	{path: 8, method: "POST"},                                          // /db/load, SQLite file
+	{path: 8, method: "POST", jsonBody: true},                          // /db/load, SQL text
+	{path: 8, method: "POST", query: "redirect"},                       //
+	{path: 9, method: "GET", query: "q=SELECT+%2A+FROM+secrets"},       // /db/sql
+	{path: 10, method: "POST"},                                         // /boot
+	{path: 11, method: "POST", query: "trailing_logs=5"},               // /snapshot
+	{path: 12, method: "POST"},                                         // /reap
+	{path: 13, method: "DELETE"},                                       // /remove
+	{path: 13, method: "DELETE", query: "redirect"},                    //
+	{path: 14, method: "GET"},                                          // /status
+	{path: 15, method: "GET", query: "nonvoters&ver=2"},                // /nodes
+	{path: 15, method: "GET"},                                          //
+	{path: 16, method: "GET"},                                          // /leader
+	{path: 16, method: "POST", query: "wait"},                          // stepdown
+	{path: 16, method: "POST", query: "redirect"},                      //
+	{path: 17, method: "GET"},                                          // /readyz
+	{path: 17, method: "GET", query: "noleader"},                       //
 	{path: 17, method: "GET", query: "sync&q=SELECT+%2A+FROM+secrets"}, //
-	{path: 18, method: "GET"},                                  // /licenses
-	{path: 19, method: "GET", query: "key=http"},               // /debug/vars
-	{path: 3, method: "GET"},                                   // console
+	{path: 18, method: "GET"},                                          // /licenses
+	{path: 19, method: "GET", query: "key=http"},                       // /debug/vars
+	{path: 3, method: "GET"},                                           // console
 }
 
 // VerifC18bVariants: the documented forms of each endpoint (query strings, body forms) in every
